@@ -40,8 +40,17 @@ RULE = ('(a) systematic block: one depth coordinate per dataset over the product
         'that leave deep_to_shallow unset go through the oracle and the model (sign, bounds, data, idempotence, '
         'untouched, purity all apply to a one-level coordinate), the pairs that request an ordering are compared '
         'with the model only (the code as written refuses them for a one-level coordinate). Every dataset is '
-        'normalised with all 9 option pairs, each applied twice, through the accessor and through the module '
-        'function; the model line carries the whole dataset (generator ground truth), the output is the whole '
+        'normalised with all 9 option pairs, each applied twice (the second time to the dataset the first call '
+        'returned, which must itself be left as it was), through one of six entry points in rotation: a convention '
+        'instance made for the dataset, the registered `.ems` accessor (one instance living on the dataset object '
+        'for all nine requests; the second pass through the accessor of the returned dataset), and the module '
+        'function given a list of names, a one-shot generator of names, a list of the data arrays, a one-shot '
+        'iterator of the data arrays (the parameter is an Iterable of names or arrays). (e) chains: on every '
+        'random dataset three sequences of 2-3 independently drawn option pairs (one-level datasets: two '
+        'sequences of sign-only pairs), each applied to the result of the one before through one entry point; '
+        'the outcome must be the dataset the single merged request (per aspect the last pair that set it) gives, '
+        'and the model is sent the same sequence. The model line carries the whole dataset (generator ground '
+        'truth), the output is the whole '
         'resulting dataset (every variable, attribute token, coordinate status, warnings). A case is '
         'non-trivial when at least one of the two aspects is requested and differs from the input; distinct = '
         'distinct (convention, coordinate configuration, option pair, stream).')
@@ -124,18 +133,53 @@ def _attrs_eq(a: dict, b: dict) -> bool:
 WARN_RE = re.compile(r"Depth variable '([^']+)' had no 'positive' attribute, guessing `positive: '(up|down)'`")
 
 
+# The entry points and argument classes a caller has.  `depth_coordinates` of the module function is declared
+# `Iterable[Hashable | DataArray]`: a list of names, a one-shot iterator of names, the data arrays themselves and
+# a one-shot iterator of data arrays are all the same request.  A convention is reached either as an instance
+# made for the dataset ('accessor': `ConventionClass(ds).normalize_depth_variables`, a fresh instance per call) or
+# through the registered xarray accessor ('ems': `ds.ems.normalize_depth_variables`) -- the accessor lives on the
+# dataset object (one convention instance, with everything it has cached, for every call made on that dataset),
+# and a second normalisation goes through the accessor of the dataset the first one returned.
+FUNCTION_VIAS = ['function', 'function-iter', 'function-da', 'function-da-iter']
+CONVENTION_VIAS = ['accessor', 'ems']
+VIA_CYCLE = ['accessor', 'function-iter', 'ems', 'function', 'function-da-iter', 'function-da']
+
+
+def pick_via(j: int, discovered_as_built: bool) -> str:
+    via = VIA_CYCLE[j % len(VIA_CYCLE)]
+    if via in CONVENTION_VIAS and not discovered_as_built:
+        return 'function'      # the convention would normalise other coordinates than the ones the dataset has
+    return via
+
+
+def depth_argument(ds, names, via: str):
+    if via == 'function-iter':
+        return (n for n in list(names))
+    if via == 'function-da':
+        return [ds[n] for n in names]
+    if via == 'function-da-iter':
+        return iter([ds[n] for n in names])
+    return list(names)
+
+
 def call_normalize(db: D.DBuilt, ds, names, pd, dts, via: str):
     """-> (output dataset | None, canonical warnings string)"""
+    import xarray as xr
     from emsarray.operations import depth as E
     with warnings.catch_warnings(record=True) as rec:
         warnings.simplefilter('always')
         try:
             if via == 'accessor':
                 out = db.convention(ds).normalize_depth_variables(positive_down=pd, deep_to_shallow=dts)
+            elif via == 'ems':
+                out = ds.ems.normalize_depth_variables(positive_down=pd, deep_to_shallow=dts)
             else:
-                out = E.normalize_depth_variables(ds, list(names), positive_down=pd, deep_to_shallow=dts)
+                out = E.normalize_depth_variables(ds, depth_argument(ds, names, via),
+                                                  positive_down=pd, deep_to_shallow=dts)
         except Exception as e:  # noqa
             return None, f'{type(e).__name__}: {e}'
+    if not isinstance(out, xr.Dataset):
+        return None, f'returned a {type(out).__name__}, not a dataset'
     ws = []
     for w in rec:
         m = WARN_RE.search(str(w.message))
@@ -144,14 +188,39 @@ def call_normalize(db: D.DBuilt, ds, names, pd, dts, via: str):
     return out, (','.join(ws) or '-')
 
 
+def impl_chain(db, names, opts, via):
+    """apply the option pairs in sequence, each to the result of the one before (the same entry point every
+    time) -> (outputs so far, canonical line | 'ERR', error | None, how an intermediate input was modified | None).
+    The first input (`db.ds`) is watched by the caller."""
+    outs, ws, ds, mutated = [], [], db.ds, None
+    for k, (pd, dts) in enumerate(opts):
+        before = snapshot(ds) if k else None
+        out, w = call_normalize(db, ds, names, pd, dts, via)
+        if before is not None and mutated is None:
+            d = snap_diff(before, snapshot(ds))
+            if d:
+                mutated = f'pass {k + 1} changed the dataset it was given: {d}'
+        if out is None:
+            return outs, 'ERR', w, mutated
+        outs.append(out)
+        ws.append(w)
+        ds = out
+    return outs, f"OK {D.dataset_line(ds)} W={'/'.join(ws)}", None, mutated
+
+
 def impl_two_pass(db, names, pd, dts, via):
-    out1, w1 = call_normalize(db, db.ds, names, pd, dts, via)
-    if out1 is None:
-        return None, None, 'ERR', w1
-    out2, w2 = call_normalize(db, out1, names, pd, dts, via)
-    if out2 is None:
-        return out1, None, 'ERR', w2
-    return out1, out2, f'OK {D.dataset_line(out2)} W={w1}/{w2}', None
+    outs, impl, err, mutated = impl_chain(db, names, [(pd, dts), (pd, dts)], via)
+    outs = outs + [None, None]
+    return outs[0], outs[1], impl, err, mutated
+
+
+def merged_options(opts):
+    """the single request a sequence of requests amounts to: for each aspect the last one that set it"""
+    mpd = mdts = None
+    for pd, dts in opts:
+        mpd = pd if pd is not None else mpd
+        mdts = dts if dts is not None else mdts
+    return mpd, mdts
 
 
 def norm_line(db: D.DBuilt, names, opts: list) -> str:
@@ -265,6 +334,30 @@ def oracle(ctx, db: D.DBuilt, names, pd, dts, out1, out2, snap_in, snap_after, d
         d = snap_diff(snapshot(out1), snapshot(out2))
         if d:
             fail('not-idempotent', f'normalising a normalised dataset changed it: {d}')
+
+
+def chain_oracle(ctx, db: D.DBuilt, names, opts, outs, err, mutated, snap_in, snap_after, desc):
+    """a sequence of requests, each applied to the result of the one before.  Valid-stream datasets only."""
+    def fail(sig, msg):
+        ctx.oracle_fail(sig, desc, msg)
+    d = snap_diff(snap_in, snap_after)
+    if d:
+        fail('input-mutated', f'the input dataset changed: {d}')
+    if mutated:
+        fail('input-mutated', mutated)
+    if len(outs) < len(opts):
+        fail('normalize-raised', f'pass {len(outs) + 1} of {[opt_str(*o) for o in opts]} raised on a well-formed '
+                                 f'(already normalised) dataset: {err}')
+        return
+    mpd, mdts = merged_options(opts)
+    ref, rerr = call_normalize(db, db.ds, names, mpd, mdts, 'function')
+    if ref is None:
+        fail('normalize-raised', f'normalize_depth_variables raised on a well-formed dataset: {rerr}')
+        return
+    d = snap_diff(snapshot(ref), snapshot(outs[-1]))
+    if d:
+        fail('chain-diverges', f'normalising with {[opt_str(*o) for o in opts]} in sequence does not give what the one '
+                               f'request {opt_str(mpd, mdts)} gives (second is the sequence): {d}')
 
 
 # ---------------------------------------------------------------------------------------
@@ -437,28 +530,68 @@ def run(ctx) -> None:
             items.append((line, '0' if shared else '1', {'recipe': recipe, 'names': list(names), 'stream': stream,
                                                          'op': line, 'opt': 'NN', 'via': 'function'}))
             ctx.count('theorem hypotheses hold' if not shared else 'theorem hypotheses do not hold (shared dimension)')
+
+        def case(pd, dts, via):
+            o = opt_str(pd, dts)
+            line = norm_line(db, names, [o, o])
+            desc = {'recipe': recipe, 'names': list(names), 'opt': o, 'via': via, 'stream': stream, 'op': line}
+            out1, out2, impl, err, mutated = impl_two_pass(db, names, pd, dts, via)
+            items.append((line, impl, desc))
+            ctx.count(f'{stream}:{db.conv}')
+            ctx.count('via:' + via)
+            ctx.count('result:' + ('ERR' if impl == 'ERR' else 'OK'))
+            if mutated:
+                ctx.oracle_fail('input-mutated', desc, mutated)
+            if valid:
+                ctx.evaluated()
+                oracle(ctx, db, names, pd, dts, out1, out2, snap_in, snapshot(db.ds), desc)
+                if not trivial(db, names, pd, dts):
+                    ctx.nontrivial((db.conv, cfg_key, o, stream))
+            else:
+                d = snap_diff(snap_in, snapshot(db.ds))
+                if d:
+                    ctx.oracle_fail('input-mutated', desc, f'the input dataset changed: {d}')
+                ctx.nontrivial((db.conv, cfg_key, o, stream))
+
         for (pd, dts) in opts:
             for via in vias:
-                o = opt_str(pd, dts)
-                desc = {'recipe': recipe, 'names': list(names), 'opt': o, 'via': via, 'stream': stream}
-                out1, out2, impl, err = impl_two_pass(db, names, pd, dts, via)
-                line = norm_line(db, names, [o, o])
-                desc['op'] = line
-                items.append((line, impl, desc))
-                ctx.count(f'{stream}:{db.conv}')
-                ctx.count('result:' + ('ERR' if impl == 'ERR' else 'OK'))
-                if valid:
-                    ctx.evaluated()
-                    oracle(ctx, db, names, pd, dts, out1, out2, snap_in, snapshot(db.ds), desc)
-                    if not trivial(db, names, pd, dts):
-                        ctx.nontrivial((db.conv, cfg_key, o, stream))
-                else:
-                    d = snap_diff(snap_in, snapshot(db.ds))
-                    if d:
-                        ctx.oracle_fail('input-mutated', desc, f'the input dataset changed: {d}')
-                    ctx.nontrivial((db.conv, cfg_key, o, stream))
+                ctx.guarded(lambda: case(pd, dts, via),
+                            {'recipe': recipe, 'names': list(names), 'opt': opt_str(pd, dts), 'via': via,
+                             'stream': stream, 'op': 'norm'})
+
+    def chains(db, names, stream, via, pool, n_chains):
+        """sequences of different requests, each applied to the result of the one before, all through one entry
+        point.  The property fixes the outcome: every aspect ends as the last request that set it left it, every
+        value still at its physical depth -- which is what the single merged request gives (that call is itself
+        under the oracle above); the model is sent the same sequence."""
+        recipe = db.recipe
+
+        def case(opts):
+            os_ = [opt_str(*o) for o in opts]
+            line = norm_line(db, names, os_)
+            desc = {'recipe': recipe, 'names': list(names), 'opts': os_, 'via': via, 'stream': stream, 'op': line}
+            snap_in = snapshot(db.ds)
+            outs, impl, err, mutated = impl_chain(db, names, opts, via)
+            items.append((line, impl, desc))
+            ctx.count(f'{stream}:{db.conv}')
+            ctx.count('via:' + via)
+            ctx.evaluated()
+            chain_oracle(ctx, db, names, opts, outs, err, mutated, snap_in, snapshot(db.ds), desc)
+            if len(set(os_)) > 1 and not trivial(db, names, *merged_options(opts)):
+                ctx.nontrivial((db.conv, 'chain', tuple(os_), via, stream))
+
+        for _ in range(n_chains):
+            opts = [rng.choice(pool) for _ in range(rng.choice([2, 2, 3]))]
+            ctx.guarded(lambda: case(opts), {'recipe': recipe, 'names': list(names), 'via': via, 'stream': stream,
+                                            'opts': [opt_str(*o) for o in opts], 'op': 'norm'})
 
     def discovery_checks(db, stream):
+        box = []
+        ctx.guarded(lambda: box.append(_discovery_checks(db, stream)),
+                    {'recipe': db.recipe, 'stream': stream, 'op': 'discovery'})
+        return box[0] if box else None
+
+    def _discovery_checks(db, stream):
         c = db.convention()
         desc = {'recipe': db.recipe, 'stream': stream, 'op': 'discovery'}
         try:
@@ -512,15 +645,17 @@ def run(ctx) -> None:
     cfgs = list(systematic_configs())
     reps = 1 if not ctx.thorough else 3
     k = rng.randrange(5)
+    j = rng.randrange(len(VIA_CYCLE))
     for rep in range(reps * ctx.mult):
         for cfg in cfgs:
             conv = D.CONVS[k % 5]
             k += 1
+            j += 1
             recipe = systematic_recipe(rng, conv, cfg)
             db = D.build(recipe)
             names = D.discovery(db)
             got = discovery_checks(db, 'systematic')
-            via = ['accessor'] if (k % 2 and got == names) else ['function']
+            via = [pick_via(j, got == names)]
             one_dataset(db, names, 'systematic', tuple(sorted((a, str(b)) for a, b in cfg.items())), via, True)
     ctx.exhaustive = True   # the 72 x 9 configuration product of (a) is enumerated completely
 
@@ -534,11 +669,13 @@ def run(ctx) -> None:
         names = D.discovery(db)
         got = discovery_checks(db, 'random')
         key = ('multi', len(names), shared)
-        vias = ['accessor'] if (i % 2 == 0 and got == names) else ['function']
-        if vias == ['function'] and rng.random() < 0.5:
+        names0 = names
+        vias = [pick_via(j + i, got == names)]
+        if vias[0] in FUNCTION_VIAS and rng.random() < 0.5:
             names = list(names)
             rng.shuffle(names)
         one_dataset(db, names, 'random', key, vias, True)
+        chains(db, names0, 'chain', pick_via(j + i + 3, got == names0), OPTS, 3)
         if not shared:
             # the decidable conclusions of normalize_succeeds / normalize_idempotent on the model itself
             for (pd, dts) in OPTS:
@@ -588,7 +725,8 @@ def run(ctx) -> None:
             db = D.build(recipe)
             names = D.discovery(db)
             got = discovery_checks(db, 'one-level')
-            via = ['accessor'] if (k % 2 and got == names) else ['function']
+            j += 1
+            via = [pick_via(j, got == names)]
             key = tuple(sorted((a, str(b)) for a, b in cfg.items()))
             one_level_dataset(db, names, 'one-level', key, via)
     for i in range(ctx.budget(20, 200)):
@@ -598,12 +736,13 @@ def run(ctx) -> None:
         db = D.build(recipe)
         names = D.discovery(db)
         got = discovery_checks(db, 'one-level-mixed')
-        vias = ['accessor'] if (i % 2 == 0 and got == names) else ['function']
-        if vias == ['function'] and rng.random() < 0.5:
+        vias = [pick_via(j + i, got == names)]
+        if vias[0] in FUNCTION_VIAS and rng.random() < 0.5:
             names = list(names)
             rng.shuffle(names)
         levels = tuple(sorted(ax['n'] for ax in recipe['depth']['axes']))
         one_level_dataset(db, names, 'one-level-mixed', ('mixed', levels, shared), vias)
+        chains(db, names, 'chain-one-level', vias[0], SIGN_OPTS, 2)
 
     if ctx.searching and ctx.driver is None:
         ctx.evaluated(len(items))
@@ -633,25 +772,40 @@ def run_one(ctx, inp: dict) -> dict:
         if ctx.driver and op != 'discovery':
             out['model'] = ctx.model([op])[0]
         return out
-    pd, dts = parse_opt(inp['opt'])
     names = inp['names']
     snap_in = snapshot(db.ds)
-    out1, out2, impl, err = impl_two_pass(db, names, pd, dts, inp.get('via', 'function'))
+
+    class Rec:
+        known = []
+
+        def __init__(self):
+            self.fails = []
+
+        def oracle_fail(self, sig, desc, msg):
+            self.fails.append(f'{sig}: {msg}')
+    if 'opts' in inp:
+        opts = [parse_opt(o) for o in inp['opts']]
+        outs, impl, err, mutated = impl_chain(db, names, opts, inp.get('via', 'function'))
+        out['impl'] = impl if err is None else f'ERR ({err})'
+        if ctx.driver:
+            out['model'] = ctx.model([norm_line(db, names, inp['opts'])])[0]
+            if out['impl'].startswith('ERR') and out['model'] == 'ERR':
+                out['impl'] = 'ERR'
+        rec = Rec()
+        chain_oracle(rec, db, names, opts, outs, err, mutated, snap_in, snapshot(db.ds), {})
+        out['oracle'] = rec.fails or 'property holds on this input'
+        return out
+    pd, dts = parse_opt(inp['opt'])
+    out1, out2, impl, err, mutated = impl_two_pass(db, names, pd, dts, inp.get('via', 'function'))
     out['impl'] = impl if err is None else f'ERR ({err})'
     if ctx.driver:
         out['model'] = ctx.model([norm_line(db, names, [inp['opt'], inp['opt']])])[0]
         if out['impl'].startswith('ERR') and out['model'] == 'ERR':
             out['impl'] = 'ERR'
     if not stream.startswith('malformed'):
-        class Rec:
-            known = []
-
-            def __init__(self):
-                self.fails = []
-
-            def oracle_fail(self, sig, desc, msg):
-                self.fails.append(f'{sig}: {msg}')
         rec = Rec()
+        if mutated:
+            rec.oracle_fail('input-mutated', {}, mutated)
         oracle(rec, db, names, pd, dts, out1, out2, snap_in, snapshot(db.ds), {})
         out['oracle'] = rec.fails or 'property holds on this input'
     return out
